@@ -45,8 +45,9 @@ def select__node_kind_test(self: XPathFunction, context: ta.ContextType = None) 
 
     for item in context.iter_children_or_self():
         if isinstance(item, XPathNode):
-            if not isinstance(item, DocumentNode) or item is context.root:
-                yield item
+            if not isinstance(item, DocumentNode) or item is context.root \
+                    or item is not context.document:
+                yield item  # any node, except the dummy document of a root element
 
 
 @method('node')
